@@ -1,12 +1,12 @@
 (* Property C12, id/time conversion half (slice tmap): "Converting sample id to time
    reproduces every stored pair exactly, is non-decreasing, interpolates linearly between
-   neighbouring pairs and extrapolates from the nearest segment (or from the sample rate when
+   neighbouring pairs and extrapolates from the nearest segment (or from the sample tm_rate when
    only one pair exists) to within one time tick of the exact value, and converting that
    time back returns the original sample id to within one sample."
 
    All theorems are about coq/TmapModel.v, the model of the CURRENT /repo/src/tmap.c
    (jls_tmap_alloc, jls_tmap_add, interp_i64, jls_tmap_sample_id_to_timestamp,
-   jls_tmap_timestamp_to_sample_id), for every number of entries >= 1, every strictly
+   jls_tmap_timestamp_to_sample_id), for every number of tm_entries >= 1, every strictly
    increasing id sequence with non-decreasing times and every query.  Statements are written
    out with the model's functions only; `ids t` = sample ids, `times t` = UTC ticks (2^30 per
    second).  Arithmetic is exact (Q); the distance between binary64 and exact evaluation is the
@@ -39,9 +39,9 @@ Print Assumptions C12_tmap_total.
 Theorem C12_tmap_reachable : forall (r : Q) (l : list (Z * Z)),
   let t := tmap_add_all (tmap_alloc r) l in
   (forall i k, (i < k < length (ids t))%nat -> nth i (ids t) 0 < nth k (ids t) 0) /\
-  (length (entries t) <= phys t)%nat /\
-  (length (entries t) = phys t <->
-   length (entries t) = N.to_nat TMAP_ENTRIES_ALLOC_INIT /\ alloc t = N.to_nat TMAP_ENTRIES_ALLOC_INIT).
+  (length (tm_entries t) <= tm_phys t)%nat /\
+  (length (tm_entries t) = tm_phys t <->
+   length (tm_entries t) = N.to_nat TMAP_ENTRIES_ALLOC_INIT /\ tm_alloc t = N.to_nat TMAP_ENTRIES_ALLOC_INIT).
 Proof. exact tmap_reachable. Qed.
 Print Assumptions C12_tmap_reachable.
 
@@ -51,8 +51,8 @@ Theorem C12_tmap_anchor_exact : forall (t : tmap) (s u : Z),
   (forall i k, (i <= k < length (times t))%nat -> nth i (times t) 0 <= nth k (times t) 0) ->
   Forall (fun v => - (2 ^ 62 - 1) <= v <= 2 ^ 62 - 1) (ids t) ->
   Forall (fun v => - (2 ^ 62 - 1) <= v <= 2 ^ 62 - 1) (times t) ->
-  (0 < rate t)%Q ->
-  In (s, u) (entries t) ->
+  (0 < tm_rate t)%Q ->
+  In (s, u) (tm_entries t) ->
   tmap_sample_id_to_timestamp t s = QVal u /\
   ((forall i k, (i < k < length (times t))%nat -> nth i (times t) 0 < nth k (times t) 0) ->
    tmap_timestamp_to_sample_id t u = QVal s).
@@ -83,7 +83,7 @@ Theorem C12_tmap_interp_linear : forall (t : tmap) (i : nat) (q : Z),
   (forall i k, (i <= k < length (times t))%nat -> nth i (times t) 0 <= nth k (times t) 0) ->
   Forall (fun v => - (2 ^ 62 - 1) <= v <= 2 ^ 62 - 1) (ids t) ->
   Forall (fun v => - (2 ^ 62 - 1) <= v <= 2 ^ 62 - 1) (times t) ->
-  (i + 1 < length (entries t))%nat -> nth i (ids t) 0 <= q <= nth (S i) (ids t) 0 ->
+  (i + 1 < length (tm_entries t))%nat -> nth i (ids t) 0 <= q <= nth (S i) (ids t) 0 ->
   exists v, tmap_sample_id_to_timestamp t q = QVal v /\
     v = nth i (times t) 0 + Qround_haz (inject_Z (q - nth i (ids t) 0%Z) * (inject_Z (nth (S i) (times t) 0%Z - nth i (times t) 0%Z) / inject_Z (nth (S i) (ids t) 0%Z - nth i (ids t) 0%Z)))%Q /\
     (Qabs (inject_Z v - (inject_Z (nth i (times t) 0%Z) + inject_Z (q - nth i (ids t) 0%Z) * (inject_Z (nth (S i) (times t) 0%Z - nth i (times t) 0%Z) / inject_Z (nth (S i) (ids t) 0%Z - nth i (ids t) 0%Z)))) <= 1 # 2)%Q /\
@@ -94,26 +94,26 @@ Print Assumptions C12_tmap_interp_linear.
 (* ---- before the first / at or after the last anchor: the first / last segment is used ---- *)
 Theorem C12_tmap_extrap_nearest_segment : forall (t : tmap) (q v : Z),
   (forall i k, (i < k < length (ids t))%nat -> nth i (ids t) 0 < nth k (ids t) 0) ->
-  (2 <= length (entries t))%nat ->
+  (2 <= length (tm_entries t))%nat ->
   tmap_sample_id_to_timestamp t q = QVal v ->
   (q < nth 0 (ids t) 0 ->
      v = nth 0 (times t) 0 + Qround_haz (inject_Z (q - nth 0 (ids t) 0%Z) * (inject_Z (nth 1 (times t) 0%Z - nth 0 (times t) 0%Z) / inject_Z (nth 1 (ids t) 0%Z - nth 0 (ids t) 0%Z)))%Q) /\
-  (nth (length (entries t) - 1) (ids t) 0 <= q ->
-     let c := (length (entries t) - 2)%nat in
+  (nth (length (tm_entries t) - 1) (ids t) 0 <= q ->
+     let c := (length (tm_entries t) - 2)%nat in
      v = nth c (times t) 0 + Qround_haz (inject_Z (q - nth c (ids t) 0%Z) * (inject_Z (nth (S c) (times t) 0%Z - nth c (times t) 0%Z) / inject_Z (nth (S c) (ids t) 0%Z - nth c (ids t) 0%Z)))%Q).
 Proof. exact tmap_extrap_nearest_segment. Qed.
 Print Assumptions C12_tmap_extrap_nearest_segment.
 
-(* ---- every query, every map: either the single-entry rule (sample rate, truncation, less
+(* ---- every query, every map: either the single-entry rule (sample tm_rate, truncation, less
    than one tick from the exact value) or the segment c the bisection selects
    (x[c] <= q unless c is the first segment, q < x[c+1] unless c is the last) and at most
    1/2 tick from the exact value on that segment ---- *)
 Theorem C12_tmap_within_one_tick : forall (t : tmap) (q v : Z),
   (forall i k, (i < k < length (ids t))%nat -> nth i (ids t) 0 < nth k (ids t) 0) ->
   tmap_sample_id_to_timestamp t q = QVal v ->
-  (exists s0 u0, entries t = [(s0, u0)] /\ (0 < rate t)%Q /\
-     v = u0 + Qtrunc ((inject_Z (q - s0) / rate t) * inject_Z (2 ^ 30))%Q /\
-     (Qabs (inject_Z v - (inject_Z u0 + (inject_Z (q - s0) / rate t) * inject_Z (2 ^ 30))) < 1)%Q) \/
+  (exists s0 u0, tm_entries t = [(s0, u0)] /\ (0 < tm_rate t)%Q /\
+     v = u0 + Qtrunc ((inject_Z (q - s0) / tm_rate t) * inject_Z (2 ^ 30))%Q /\
+     (Qabs (inject_Z v - (inject_Z u0 + (inject_Z (q - s0) / tm_rate t) * inject_Z (2 ^ 30))) < 1)%Q) \/
   (exists c,
      ((c + 2 <= length (ids t))%nat /\
       (forall i, (0 < i <= c)%nat -> nth i (ids t) 0 <= q) /\
@@ -124,12 +124,12 @@ Proof. exact tmap_within_one_tick. Qed.
 Print Assumptions C12_tmap_within_one_tick.
 
 (* ---- time -> id of (id -> time) is within one sample, when every segment has at least one
-   tick per sample and the sample rate is at most 2^30 Hz (used by the single-entry rule) ---- *)
+   tick per sample and the sample tm_rate is at most 2^30 Hz (used by the single-entry rule) ---- *)
 Theorem C12_tmap_inverse_within_one_sample : forall (t : tmap) (q tm q' : Z),
   (forall i k, (i < k < length (ids t))%nat -> nth i (ids t) 0 < nth k (ids t) 0) ->
-  (forall i, (i + 1 < length (entries t))%nat ->
+  (forall i, (i + 1 < length (tm_entries t))%nat ->
      nth (S i) (ids t) 0 - nth i (ids t) 0 <= nth (S i) (times t) 0 - nth i (times t) 0) ->
-  (rate t <= inject_Z (2 ^ 30))%Q ->
+  (tm_rate t <= inject_Z (2 ^ 30))%Q ->
   tmap_sample_id_to_timestamp t q = QVal tm ->
   tmap_timestamp_to_sample_id t tm = QVal q' ->
   -1 <= q' - q <= 1.
@@ -158,11 +158,11 @@ Example C12_tmap_example_hypotheses :
   (forall i k, (i < k < length (ids t))%nat -> nth i (ids t) 0 < nth k (ids t) 0) /\
   (forall i k, (i < k < length (times t))%nat -> nth i (times t) 0 < nth k (times t) 0) /\
   (forall i k, (i <= k < length (times t))%nat -> nth i (times t) 0 <= nth k (times t) 0) /\
-  (length (entries t) < phys t)%nat /\
+  (length (tm_entries t) < tm_phys t)%nat /\
   Forall (fun v => - (2 ^ 62 - 1) <= v <= 2 ^ 62 - 1) (ids t) /\
   Forall (fun v => - (2 ^ 62 - 1) <= v <= 2 ^ 62 - 1) (times t) /\
-  (0 < rate t)%Q /\ (rate t <= inject_Z (2 ^ 30))%Q /\
-  (forall i, (i + 1 < length (entries t))%nat ->
+  (0 < tm_rate t)%Q /\ (tm_rate t <= inject_Z (2 ^ 30))%Q /\
+  (forall i, (i + 1 < length (tm_entries t))%nat ->
      nth (S i) (ids t) 0 - nth i (ids t) 0 <= nth (S i) (times t) 0 - nth i (times t) 0).
 Proof. exact ex_map_ok. Qed.
 Print Assumptions C12_tmap_example_hypotheses.
@@ -183,7 +183,7 @@ Example C12_tmap_example_values :
 Proof. exact ex_map_values. Qed.
 Print Assumptions C12_tmap_example_values.
 
-(* the map holding exactly ENTRIES_ALLOC_INIT = 1000 entries, queried beyond its last anchor in
+(* the map holding exactly ENTRIES_ALLOC_INIT = 1000 tm_entries, queried beyond its last anchor in
    both directions: a value, no tm_fault (the old code read outside the heap object here) *)
 Example C12_tmap_example_at_capacity :
   exists t : tmap,
@@ -202,7 +202,7 @@ Print Assumptions C12_tmap_binary64_hypothesis_satisfiable.
 (* ====================================================================================== *)
 (* Documentation of the two defects repaired in /repo, on the model of the code BEFORE the
    repairs (TmapModel.*_old; `junk` = content of the uninitialised cell x[length],
-   `phys t` = 8-byte cells of the heap object).                                            *)
+   `tm_phys t` = 8-byte cells of the heap object).                                            *)
 (* ====================================================================================== *)
 
 (* old defect 1 (fixed by 4ae268d): with length = allocated cells the bisection read x[length]
@@ -213,7 +213,7 @@ Theorem C12_tmap_old_oob_refuted :
           (map (fun i => (Z.of_nat i * 1000, 2 ^ 58 + Z.of_nat i * 2 ^ 30)) (seq 0 (N.to_nat TMAP_ENTRIES_ALLOC_INIT))) /\
     (forall i k, (i < k < length (ids t))%nat -> nth i (ids t) 0 < nth k (ids t) 0) /\
     (forall i k, (i < k < length (times t))%nat -> nth i (times t) 0 < nth k (times t) 0) /\
-    length (entries t) = N.to_nat TMAP_ENTRIES_ALLOC_INIT /\
+    length (tm_entries t) = N.to_nat TMAP_ENTRIES_ALLOC_INIT /\
     forall junk, tmap_sample_id_to_timestamp_old junk t q = QFault Tm_OOB_read /\
                  tmap_timestamp_to_sample_id_old junk t (2 ^ 58 + 1000 * 2 ^ 30) = QFault Tm_OOB_read.
 Proof. exact tmap_old_oob_refuted. Qed.
@@ -221,14 +221,14 @@ Print Assumptions C12_tmap_old_oob_refuted.
 
 Theorem C12_tmap_old_oob_iff : forall (junk : Z) (t : tmap) (q : Z),
   (forall i k, (i < k < length (ids t))%nat -> nth i (ids t) 0 < nth k (ids t) 0) ->
-  (2 <= length (entries t))%nat -> (phys t <= length (entries t))%nat ->
-  (tmap_sample_id_to_timestamp_old junk t q = QFault Tm_OOB_read <-> nth (length (entries t) - 1) (ids t) 0 < q).
+  (2 <= length (tm_entries t))%nat -> (tm_phys t <= length (tm_entries t))%nat ->
+  (tmap_sample_id_to_timestamp_old junk t q = QFault Tm_OOB_read <-> nth (length (tm_entries t) - 1) (ids t) 0 < q).
 Proof. exact tmap_old_oob_iff. Qed.
 Print Assumptions C12_tmap_old_oob_iff.
 
 (* below capacity the old result did not depend on the uninitialised cell it read *)
 Theorem C12_tmap_old_junk_independent : forall (junk junk' : Z) (t : tmap) (q : Z),
-  (length (entries t) < phys t)%nat ->
+  (length (tm_entries t) < tm_phys t)%nat ->
   tmap_sample_id_to_timestamp_old junk t q = tmap_sample_id_to_timestamp_old junk' t q /\
   tmap_timestamp_to_sample_id_old junk t q = tmap_timestamp_to_sample_id_old junk' t q.
 Proof. exact tmap_old_junk_independent. Qed.
@@ -240,8 +240,8 @@ Theorem C12_tmap_old_equal_times_refuted :
   exists (t : tmap) (s u : Z),
     (forall i k, (i < k < length (ids t))%nat -> nth i (ids t) 0 < nth k (ids t) 0) /\
     (forall i k, (i <= k < length (times t))%nat -> nth i (times t) 0 <= nth k (times t) 0) /\
-    (length (entries t) < phys t)%nat /\
-    In (s, u) (entries t) /\
+    (length (tm_entries t) < tm_phys t)%nat /\
+    In (s, u) (tm_entries t) /\
     tmap_sample_id_to_timestamp_old 0 t s = QVal u /\
     tmap_timestamp_to_sample_id_old 0 t u = QFault Tm_FP_invalid.
 Proof. exact tmap_old_equal_times_refuted. Qed.
@@ -250,7 +250,7 @@ Print Assumptions C12_tmap_old_equal_times_refuted.
 (* the repairs changed no defined result: the current code returns what the old code returned
    whenever the old code could not read outside its heap object (strictly increasing search keys) *)
 Theorem C12_tmap_eq_old : forall (junk : Z) (t : tmap) (q : Z),
-  (length (entries t) < phys t)%nat ->
+  (length (tm_entries t) < tm_phys t)%nat ->
   ((forall i k, (i < k < length (ids t))%nat -> nth i (ids t) 0 < nth k (ids t) 0) ->
    tmap_sample_id_to_timestamp t q = tmap_sample_id_to_timestamp_old junk t q) /\
   ((forall i k, (i < k < length (times t))%nat -> nth i (times t) 0 < nth k (times t) 0) ->
